@@ -183,7 +183,8 @@ def run_pool(
                         pending.pop(fut)
             else:
                 submit_more()
-    finally:
+    except BaseException:
+        # error path: do not wait for hung workers
         procs = list((getattr(ex, "_processes", None) or {}).values())
         ex.shutdown(wait=False, cancel_futures=True)
         for p in procs:
@@ -191,6 +192,11 @@ def run_pool(
                 p.terminate()
             except Exception:
                 pass
+        raise
+    else:
+        # normal path: every submitted task is done (or cancelled); let the executor wind down cleanly
+        # (terminating its workers under its feet makes its manager thread die with EBADF noise)
+        ex.shutdown(wait=True, cancel_futures=True)
     out.sort(key=lambda x: x[0])
     return out
 
